@@ -101,7 +101,7 @@ Lemma sem_class l : sem S noO (cfun nopars l) = Some (cser [] (S l)).
 Proof. apply (sem_cfun S noO nopars l). Qed.
 
 Lemma sem_plain_add ks : forall a pa, sem S noO a = Some pa ->
-  sem S noO (fold_left (fun res fe => Add res (subs (union_subs (snd fe)) (fst fe)))
+  sem S noO (fold_left (fun res fe => Add res (subs (full_subs (fst fe) (snd fe)) (fst fe)))
                (combine (map (cfun nopars) ks) (noeps ks)) a) =
   Some (fold_left padd (map (fun k => cser [] (S k)) ks) pa).
 Proof.
@@ -111,7 +111,7 @@ Proof.
 Qed.
 
 Lemma sem_plain_mul ks : forall a pa, sem S noO a = Some pa ->
-  sem S noO (fold_left (fun res ef => Mul res (subs (prod_subs (fst ef)) (snd ef)))
+  sem S noO (fold_left (fun res ef => Mul res (subs (full_subs (snd ef) (fst ef)) (snd ef)))
                (combine (noeps ks) (map (cfun nopars) ks)) a) =
   Some (fold_left pmul (map (fun k => cser [] (S k)) ks) pa).
 Proof.
@@ -157,7 +157,7 @@ Qed.
 Lemma sat_union c kids n :
   satisfies W c (UUnion kids) -> 0 <= n -> W c n = psum (fun k => W k n) kids.
 Proof.
-  intros Hs Hn. specialize (Hs n Hn). cbn [to_rule rule_equation o_parent o_children o_eps] in Hs.
+  intros Hs Hn. specialize (Hs n Hn). unfold rule_equation in Hs; cbn [to_rule rule_equation_with o_parent o_children o_eps] in Hs.
   unfold union_equation, holds in Hs. rewrite undiv_fold_add in Hs by reflexivity. cbn [fst snd] in Hs.
   destruct Hs as [p [q [Hp [Hq H]]]]. rewrite sem_class in Hp. injection Hp as <-.
   unfold zl in Hq. rewrite <- (noeps_map Z.of_nat kids) in Hq.
@@ -176,7 +176,7 @@ Lemma sat_complement c p cs idx n :
   W c n = W p n - psum (fun k => W k n) (remove_nth idx cs).
 Proof.
   intros [Hidx Hc] Hs Hn. specialize (Hs n Hn).
-  cbn [to_rule rule_equation o_parent o_children o_eps] in Hs.
+  unfold rule_equation in Hs; cbn [to_rule rule_equation_with o_parent o_children o_eps] in Hs.
   unfold complement_equation in Hs. rewrite noeps_any in Hs. cbn [map] in Hs.
   unfold holds in Hs. rewrite undiv_fold_sub in Hs by reflexivity. cbn [fst snd] in Hs.
   destruct Hs as [a [q [Hp [Hq H]]]]. rewrite sem_class in Hp. injection Hp as <-.
@@ -196,7 +196,7 @@ Qed.
 Lemma sat_atom c m n :
   0 <= m -> satisfies W c (UAtom m) -> 0 <= n -> W c n = if n =? m then 1 else 0.
 Proof.
-  intros Hm Hs Hn. specialize (Hs n Hn). cbn [to_rule rule_equation] in Hs. unfold nopars at 1 in Hs.
+  intros Hm Hs Hn. specialize (Hs n Hn). unfold rule_equation in Hs; cbn [to_rule rule_equation_with] in Hs. unfold nopars at 1 in Hs.
   unfold holds in Hs. cbn [undiv fst snd] in Hs.
   destruct Hs as [a [q [Hp [Hq H]]]]. rewrite sem_class in Hp. injection Hp as <-.
   cbn [sem] in Hq. destruct (Z.ltb_spec m 0); [lia|]. injection Hq as <-.
@@ -209,7 +209,7 @@ Qed.
 
 Lemma sat_empty c n : satisfies W c UEmpty -> 0 <= n -> W c n = 0.
 Proof.
-  intros Hs Hn. specialize (Hs n Hn). cbn [to_rule rule_equation] in Hs.
+  intros Hs Hn. specialize (Hs n Hn). unfold rule_equation in Hs; cbn [to_rule rule_equation_with] in Hs.
   unfold holds in Hs. cbn [undiv fst snd] in Hs.
   destruct Hs as [a [q [Hp [Hq H]]]]. rewrite sem_class in Hp. injection Hp as <-.
   cbn [sem] in Hq. injection Hq as <-.
@@ -226,7 +226,7 @@ Lemma sat_product c kids n :
   W c n = conv (map W (map fst kids)) (prod_ranges (map snd kids) n) n.
 Proof.
   intros Hmin Hlow Hs Hn. specialize (Hs n Hn).
-  cbn [to_rule rule_equation o_parent o_children o_eps] in Hs.
+  unfold rule_equation in Hs; cbn [to_rule rule_equation_with o_parent o_children o_eps] in Hs.
   unfold product_equation, holds in Hs. rewrite undiv_fold_mul in Hs by reflexivity. cbn [fst snd] in Hs.
   destruct Hs as [a [q [Hp [Hq H]]]]. rewrite sem_class in Hp. injection Hp as <-.
   unfold zl in Hq.
